@@ -12,6 +12,7 @@ import (
 
 	"verifharness/internal/drive"
 	"verifharness/internal/ev"
+	"verifharness/internal/gen"
 	"verifharness/internal/vstore"
 )
 
@@ -31,6 +32,7 @@ func runRace(e *ev.Env) {
 		cfg := genCfg(r)
 		cfg.Idle, cfg.Abs, cfg.Gran = time.Hour, 0, 0
 		nreq := e.N(150, 400)
+		cfg.IDs = gen.Pick(r, idStyles)
 		tag := r.StringFrom("0123456789abcdef", 6)
 
 		var issued sync.Map // id -> *int32 owner (-1 = not yet seen by a client)
@@ -49,7 +51,8 @@ func runRace(e *ev.Env) {
 			KeyLookup:   cfg.Source + ":" + cfg.Name,
 			IdleTimeout: cfg.Idle,
 			KeyGenerator: func() string {
-				id := fmt.Sprintf("R%06d-%s", ctr.Add(1), tag)
+				n := int(ctr.Add(1))
+				id := styledID(cfg.IDs, n, tag)
 				o := &atomic.Int32{}
 				o.Store(-1)
 				issued.Store(id, o)
@@ -57,11 +60,17 @@ func runRace(e *ev.Env) {
 			},
 		}
 		if cfg.VStore {
-			vs := vstore.New()
-			vs.KeepKeyRef = r.Bool()
-			conf.Storage = vs
+			if r.Chance(1, 3) {
+				cfg.Retain = true
+				conf.Storage = newRefStore() // keeps the slices it is given
+			} else {
+				vs := vstore.New()
+				vs.KeepKeyRef = r.Bool()
+				conf.Storage = vs
+			}
 		}
 		mw, store := fsess.NewWithStore(conf)
+		store.RegisterType(HKey{}) // custom key type, registered the documented way
 		parent := &hist{e: e, c: c, cfg: cfg, store: store, scripts: map[string]*script{}, sigs: map[string]bool{}}
 		app := fiber.New()
 		app.Use("/mw", mw)
